@@ -113,7 +113,8 @@ specfun("lm_acc", ["m"], "rules_ok(acc_of(m)) and wf_account(acc_of(m)) and pric
 specfun("lm_coll_dom", ["m"], "forall(lambda k=Id: (k in m._collateral_by_loan) == ((k in m._loans._items) and m._loans._items[k]._is_open))")
 specfun("lm_coll_nonneg", ["m"], "forall(lambda k=Id, s=Str: implies(k in m._collateral_by_loan, at(m._collateral_by_loan[k], s) >= 0 "
                                  "and implies(m._loans._items[k].no_collateral, not (s in m._collateral_by_loan[k]))))")
-specfun("lm_loans_wf", ["m"], "forall(lambda k=Id: implies(k in m._loans._items, m._loans._items[k]._id == k and loan_wf(m._loans._items[k]) and loan_cond_wf(m._loans._items[k])))")
+specfun("lm_loans_wf", ["m"], "forall(lambda k=Id: implies(k in m._loans._items, m._loans._items[k]._id == k and loan_wf(m._loans._items[k]) and loan_cond_wf(m._loans._items[k]) "
+                              "and implies(m._lending_strategy.no_collateral, m._loans._items[k].no_collateral)))")
 specfun("lm_inv", ["m"], "lm_acc(m) and lm_coll_dom(m) and lm_coll_nonneg(m) and lm_loans_wf(m)")
 LM_INV = [("inv_acc", "lm_acc(self)"), ("inv_coll_dom", "lm_coll_dom(self)"), ("inv_coll_nonneg", "lm_coll_nonneg(self)"), ("inv_loans_wf", "lm_loans_wf(self)")]
 # the simulated clock is available (a loan can only be created / repaid while an event is being handled)
